@@ -5,6 +5,7 @@ import (
 	"go/ast"
 	"go/token"
 	"go/types"
+	"sort"
 	"strings"
 
 	"golang.org/x/tools/go/callgraph"
@@ -41,6 +42,9 @@ func init() {
 	mutant(&Mutant{Name: "c13-match-unlocked", Property: "C13", File: "minify.go",
 		Old: "func (m *M) Match(mediatype string) (string, map[string]string, MinifierFunc) {\n\tm.mutex.RLock()\n\tdefer m.mutex.RUnlock()\n", New: "func (m *M) Match(mediatype string) (string, map[string]string, MinifierFunc) {\n",
 		Rule: "R13.3", Construct: "M.Match"})
+	mutant(&Mutant{Name: "c13-registry-written-under-read-lock", Property: "C13", File: "minify.go",
+		Old: "\tm.mutex.RLock()\n\tdefer m.mutex.RUnlock()\n\n\tmimetype, params := parse.Mediatype([]byte(mediatype))\n", New: "\tm.mutex.RLock()\n\tdefer m.mutex.RUnlock()\n\n\tdelete(m.literal, \"\")\n\tmimetype, params := parse.Mediatype([]byte(mediatype))\n",
+		Rule: "R13.3", Construct: "M.Match"})
 	mutant(&Mutant{Name: "c13-add-read-lock", Property: "C13", File: "minify.go",
 		Old: "func (m *M) AddFunc(mimetype string, minifier MinifierFunc) {\n\tm.mutex.Lock()\n\tm.literal[mimetype] = minifier\n\tm.mutex.Unlock()", New: "func (m *M) AddFunc(mimetype string, minifier MinifierFunc) {\n\tm.mutex.RLock()\n\tm.literal[mimetype] = minifier\n\tm.mutex.RUnlock()",
 		Rule: "R13.3", Construct: "M.AddFunc"})
@@ -58,6 +62,10 @@ func init() {
 		Old: "\tmimetype, params := parse.Mediatype([]byte(mediatype))\n\tif minifier, ok := m.literal[string(mimetype)]; ok {", New: "\tmimetype, params := parse.Mediatype([]byte(mediatype))\n\tif v, ok := mediatypeCache.LoadOrStore(mediatype, params); ok {\n\t\tparams = v.(map[string]string)\n\t}\n\tif minifier, ok := m.literal[string(mimetype)]; ok {",
 		Old2: "type M struct {", New2: "var mediatypeCache sync.Map\n\ntype M struct {",
 		Rule: "R13.7", Construct: "Match"})
+	mutant(&Mutant{Name: "c13-pooled-writer-read-after-release", Property: "C13", File: "minify.go",
+		Old: "\tout := buffer.NewWriter(make([]byte, 0, len(v)))\n\tif err := m.Minify(mediatype, out, buffer.NewReader([]byte(v))); err != nil {\n\t\treturn v, err\n\t}\n\treturn string(out.Bytes()), nil", New: "\tout := writerPool.Get().(*buffer.Writer)\n\tout.Reset()\n\tif err := m.Minify(mediatype, out, buffer.NewReader([]byte(v))); err != nil {\n\t\twriterPool.Put(out)\n\t\treturn v, err\n\t}\n\tb := out.Bytes()\n\twriterPool.Put(out)\n\treturn string(b), nil",
+		Old2: "type M struct {", New2: "var writerPool = sync.Pool{New: func() interface{} { return buffer.NewWriter(make([]byte, 0, 64)) }}\n\ntype M struct {",
+		Rule: "R13.6", Construct: "used after it is given back"})
 	mutant(&Mutant{Name: "c13-env-dependent", Property: "C13", File: "minify.go",
 		Old: "\tmimetype, params := parse.Mediatype([]byte(mediatype))\n\treturn m.MinifyMimetype(", New: "\tif os.Getenv(\"MINIFY_DISABLE\") != \"\" {\n\t\tmediatype = \"\"\n\t}\n\tmimetype, params := parse.Mediatype([]byte(mediatype))\n\treturn m.MinifyMimetype(",
 		Rule: "R13.5", Construct: "minify/no clock"})
@@ -76,7 +84,7 @@ func runC13(c *Ctx) {
 // R13.6: pooled / shared scratch objects do not escape.
 func (c *Ctx) r136() {
 	const rule = "R13.6"
-	c.R.Rule(rule, "library packages: an object obtained from a sync.Pool (or any package-level pool / free list reached through a method call on a package-level variable) that the function gives back with Put must not be reachable from the function's results or be stored into memory that outlives the call: SSA — no Return operand and no Store value derives (through load, slicing, conversion, φ, type assertion) from the result of (*sync.Pool).Get in a function that also calls (*sync.Pool).Put (directly or deferred). Otherwise the next concurrent or later call rewrites bytes the earlier caller still holds. Also inventories every package-level variable of the library by type: a variable whose type can carry hidden mutable state (sync.*, bytes.Buffer, channels, pointers to structs) other than *regexp.Regexp / *log.Logger / error must be one the escape rule covers")
+	c.R.Rule(rule, "library packages: an object obtained from a sync.Pool (or any package-level pool / free list reached through a method call on a package-level variable) that the function gives back with Put must not be reachable from the function's results or be stored into memory that outlives the call, and nothing derived from it (a slice of its bytes, a view returned by one of its methods) may be used after the release (getter/putter wrappers around the pool are summarised and seen through): SSA — no Return operand and no Store value derives (through load, slicing, conversion, φ, type assertion) from the result of (*sync.Pool).Get in a function that also calls (*sync.Pool).Put (directly or deferred). Otherwise the next concurrent or later call rewrites bytes the earlier caller still holds. Also inventories every package-level variable of the library by type: a variable whose type can carry hidden mutable state (sync.*, bytes.Buffer, channels, pointers to structs) other than *regexp.Regexp / *log.Logger / error must be one the escape rule covers")
 	pools, escapes := 0, 0
 	for _, rel := range libPkgs {
 		sp := c.P.SSAPkg(rel)
@@ -194,6 +202,7 @@ func (c *Ctx) r136() {
 		}
 	}
 	c.R.Note("R13.6: %d functions use a sync.Pool, %d let a pooled object escape", pools, escapes)
+	c.poolUseAfterRelease(rule)
 	// inventory of package-level variables by type class
 	risky := 0
 	for _, rel := range libPkgs {
@@ -539,13 +548,29 @@ func (c *Ctx) r132() {
 // R13.3
 func (c *Ctx) r133() {
 	const rule = "R13.3"
-	c.R.Rule(rule, "every syntactic access to M.literal / M.pattern in the root package outside New is dominated by m.mutex.RLock() or m.mutex.Lock() (writes: Lock) on the same receiver, and the matching unlock is deferred or lies on every path to the exit; in the VTA call graph no registrar ((*M).Add, AddFunc, AddRegexp, AddFuncRegexp, AddCmd, AddCmdRegexp) is reachable from a (*Minifier).Minify / cmdMinifier.Minify (a nested call then only re-enters the read lock)")
+	c.R.Rule(rule, "every syntactic access to a map- or slice-typed field of M (literal, pattern, and whatever is added later) in the root package outside New is dominated by m.mutex.RLock() or m.mutex.Lock() (writes: Lock) on the same receiver, and the matching unlock is deferred or lies on every path to the exit; in the VTA call graph no registrar ((*M).Add, AddFunc, AddRegexp, AddFuncRegexp, AddCmd, AddCmdRegexp) is reachable from a (*Minifier).Minify / cmdMinifier.Minify (a nested call then only re-enters the read lock)")
 	pk := c.pkg(rule, "")
 	if pk == nil {
 		return
 	}
 	info := pk.TypesInfo
 	fns := 0
+	// the guarded state: every map- or slice-typed field of M (today literal and pattern; a memo or cache added later is registry state too)
+	var guarded []string
+	if tn, ok := pk.Types.Scope().Lookup("M").(*types.TypeName); ok {
+		if st, ok := tn.Type().Underlying().(*types.Struct); ok {
+			for i := 0; i < st.NumFields(); i++ {
+				switch st.Field(i).Type().Underlying().(type) {
+				case *types.Map, *types.Slice:
+					guarded = append(guarded, st.Field(i).Name())
+				}
+			}
+		}
+	}
+	if len(guarded) < 2 {
+		c.R.Unres(rule, "minify.M/guarded fields", "-", "fewer than two map/slice fields found in M")
+		return
+	}
 	for _, fd := range load.FuncDecls(pk) {
 		fname := load.FuncName(fd)
 		if fname == "New" {
@@ -574,9 +599,15 @@ func (c *Ctx) r133() {
 				if !ok {
 					return true
 				}
-				for _, f := range []string{"literal", "pattern"} {
+				for _, f := range guarded {
 					if isField(info, e, mT, f) {
 						w := false
+						// delete(m.f, k) and clear(m.f) write the map
+						if par, isCall := c.P.Parent(x).(*ast.CallExpr); isCall {
+							if fid, isId := par.Fun.(*ast.Ident); isId && (fid.Name == "delete" || fid.Name == "clear") && len(par.Args) > 0 && par.Args[0] == e {
+								w = true
+							}
+						}
 						if as, isAs := n.Stmt.(*ast.AssignStmt); isAs && n.Kind == flow.KStmt {
 							for _, l := range as.Lhs {
 								if flow.Contains(l, func(y ast.Node) bool { return y == x }) {
@@ -940,4 +971,227 @@ func (c *Ctx) lenGuardExcludes(ins ssa.Instruction, addr ssa.Value, g *ssa.Globa
 		}
 	}
 	return ""
+}
+
+// poolUseAfterRelease: second half of R13.6 — nothing derived from a pooled object is used after the
+// object was given back. Getters (functions returning a value derived from (*sync.Pool).Get) and
+// putters (functions passing a parameter to (*sync.Pool).Put) are summarised first, so that the
+// usual wrapper pair getX()/putX(x) is seen through.
+func (c *Ctx) poolUseAfterRelease(rule string) {
+	type fnset map[*ssa.Function]bool
+	getters, putters := fnset{}, map[*ssa.Function]int{}
+	var fns []*ssa.Function
+	for _, rel := range libPkgs {
+		fns = append(fns, c.ssaFuncsOf(rel)...)
+	}
+	isPoolCall := func(ins ssa.Instruction, name string) (*ssa.CallCommon, bool) {
+		ci, ok := ins.(ssa.CallInstruction)
+		if !ok {
+			return nil, false
+		}
+		if cal := ci.Common().StaticCallee(); cal != nil && cal.String() == "(*sync.Pool)."+name {
+			return ci.Common(), true
+		}
+		return nil, false
+	}
+	derive := func(fn *ssa.Function, seeds map[ssa.Value]bool) map[ssa.Value]bool {
+		d := map[ssa.Value]bool{}
+		for k := range seeds {
+			d[k] = true
+		}
+		for changed := true; changed; {
+			changed = false
+			for _, b := range fn.Blocks {
+				for _, ins := range b.Instrs {
+					v, ok := ins.(ssa.Value)
+					if !ok || d[v] {
+						continue
+					}
+					add := false
+					switch x := ins.(type) {
+					case *ssa.TypeAssert:
+						add = d[x.X]
+					case *ssa.Slice:
+						add = d[x.X]
+					case *ssa.FieldAddr:
+						add = d[x.X]
+					case *ssa.IndexAddr:
+						add = d[x.X]
+					case *ssa.ChangeType:
+						add = d[x.X]
+					case *ssa.ChangeInterface:
+						add = d[x.X]
+					case *ssa.MakeInterface:
+						add = d[x.X]
+					case *ssa.Extract:
+						add = d[x.Tuple]
+					case *ssa.UnOp:
+						add = d[x.X] && isRefType(x.Type())
+					case *ssa.Phi:
+						for _, e := range x.Edges {
+							if d[e] {
+								add = true
+							}
+						}
+					case *ssa.Call:
+						// a method or function given the pooled object that returns a view (slice / pointer) of it
+						if isRefType(x.Type()) && len(x.Call.Args) > 0 && d[x.Call.Args[0]] {
+							add = true
+						}
+						if x.Call.IsInvoke() && d[x.Call.Value] && isRefType(x.Type()) {
+							add = true
+						}
+					}
+					if add {
+						d[v] = true
+						changed = true
+					}
+				}
+			}
+		}
+		return d
+	}
+	// summaries
+	for _, fn := range fns {
+		seeds := map[ssa.Value]bool{}
+		for _, b := range fn.Blocks {
+			for _, ins := range b.Instrs {
+				if _, ok := isPoolCall(ins, "Get"); ok {
+					if v, isV := ins.(ssa.Value); isV {
+						seeds[v] = true
+					}
+				}
+			}
+		}
+		if len(seeds) > 0 {
+			d := derive(fn, seeds)
+			for _, b := range fn.Blocks {
+				for _, ins := range b.Instrs {
+					if r, ok := ins.(*ssa.Return); ok {
+						for _, res := range r.Results {
+							if d[res] {
+								getters[fn] = true
+							}
+						}
+					}
+				}
+			}
+		}
+		for i, p := range fn.Params {
+			d := derive(fn, map[ssa.Value]bool{p: true})
+			for _, b := range fn.Blocks {
+				for _, ins := range b.Instrs {
+					if cc, ok := isPoolCall(ins, "Put"); ok && len(cc.Args) > 1 && d[cc.Args[1]] {
+						putters[fn] = i
+					}
+				}
+			}
+		}
+	}
+	n := 0
+	for _, fn := range fns {
+		if getters[fn] {
+			continue
+		}
+		seeds := map[ssa.Value]bool{}
+		for _, b := range fn.Blocks {
+			for _, ins := range b.Instrs {
+				if _, ok := isPoolCall(ins, "Get"); ok {
+					if v, isV := ins.(ssa.Value); isV {
+						seeds[v] = true
+					}
+				}
+				if call, ok := ins.(*ssa.Call); ok {
+					if cal := call.Call.StaticCallee(); cal != nil && getters[cal] {
+						seeds[call] = true
+					}
+				}
+			}
+		}
+		if len(seeds) == 0 {
+			continue
+		}
+		d := derive(fn, seeds)
+		// release points: direct (non-deferred) Put of a derived value, or a putter call
+		type point struct {
+			b   *ssa.BasicBlock
+			idx int
+			pos token.Pos
+		}
+		var rel []point
+		for _, b := range fn.Blocks {
+			for i, ins := range b.Instrs {
+				call, ok := ins.(*ssa.Call)
+				if !ok {
+					continue
+				}
+				if cc, isPut := isPoolCall(ins, "Put"); isPut && len(cc.Args) > 1 && d[cc.Args[1]] {
+					rel = append(rel, point{b, i, ins.Pos()})
+				}
+				if cal := call.Call.StaticCallee(); cal != nil {
+					if pi, isPutter := putters[cal]; isPutter && pi < len(call.Call.Args) && d[call.Call.Args[pi]] {
+						rel = append(rel, point{b, i, ins.Pos()})
+					}
+				}
+			}
+		}
+		if len(rel) == 0 {
+			continue
+		}
+		n++
+		var bad []string
+		for _, r := range rel {
+			// blocks reachable after the release
+			reach := map[*ssa.BasicBlock]bool{}
+			var dfs func(b *ssa.BasicBlock)
+			dfs = func(b *ssa.BasicBlock) {
+				for _, sc := range b.Succs {
+					if !reach[sc] {
+						reach[sc] = true
+						dfs(sc)
+					}
+				}
+			}
+			dfs(r.b)
+			uses := func(ins ssa.Instruction) bool {
+				if _, isDbg := ins.(*ssa.DebugRef); isDbg {
+					return false
+				}
+				for _, op := range ins.Operands(nil) {
+					if *op != nil && d[*op] {
+						// φ-nodes merely carry the value; a use is an instruction that reads through it
+						if _, isPhi := ins.(*ssa.Phi); isPhi {
+							return false
+						}
+						return true
+					}
+				}
+				return false
+			}
+			for i := r.idx + 1; i < len(r.b.Instrs); i++ {
+				if uses(r.b.Instrs[i]) {
+					bad = append(bad, "used at "+c.P.Pos(r.b.Instrs[i].Pos())+" after the release at "+c.P.Pos(r.pos))
+					break
+				}
+			}
+			for b := range reach {
+				if b == r.b {
+					continue // (loop back into the releasing block: the object is fetched anew there)
+				}
+				for _, ins := range b.Instrs {
+					if uses(ins) {
+						bad = append(bad, "used at "+c.P.Pos(ins.Pos())+" after the release at "+c.P.Pos(r.pos))
+						break
+					}
+				}
+			}
+		}
+		sort.Strings(bad)
+		if len(bad) > 3 {
+			bad = bad[:3]
+		}
+		c.R.Check(len(bad) == 0, rule, fnName(fn)+"/nothing of a pooled object is used after it is given back", c.P.Pos(fn.Pos()), fmt.Sprintf("%d release point(s), no later use", len(rel)),
+			"bytes of an object already given back to the pool are still read ("+strings.Join(bad, "; ")+"): a concurrent call that takes the object from the pool overwrites them meanwhile")
+	}
+	c.R.Note("R13.6: %d functions release a pooled object, %d pool getters, %d pool putters", n, len(getters), len(putters))
 }
